@@ -40,7 +40,7 @@ deriving Repr, DecidableEq
 inductive LoopOut where
   | done (st : RdSt)     -- loop left by `break` or by exhausting the list
   | fail (st : RdSt)     -- backend.ReadAt returned an error: Read returns (readBytes, err)
-  | panic                -- make([]byte, negative)
+  | panic (st : RdSt)    -- make([]byte, negative); the state reached inside the call
 deriving Repr, DecidableEq
 
 /-- the `for _, e := range fl.extents` loop of File.Read -/
@@ -56,7 +56,7 @@ def sparseLoop (dev : Dev) (devSize bs startBlock want : Nat) : List Extent → 
       else
         let extentSize := e.count * bs
         let startPos := st1.off - holeEnd
-        if startPos > extentSize then .panic
+        if startPos > extentSize then .panic st1
         else
           let toRead := min (want - st1.got.length) (extentSize - startPos)
           let disk := e.start * bs + startPos
@@ -76,7 +76,7 @@ deriving Repr, DecidableEq
 inductive ReadOut where
   | ok (r : SRead)
   | ioerr (n off : Nat)      -- (readBytes, "failed to read bytes"), offset afterwards
-  | panic
+  | panic (off : Nat)        -- run-time panic; offset reached inside the call
 deriving Repr, DecidableEq
 
 /-- File.Read(b) with `n = len(b)` on a regular file of `size` bytes at offset `off` -/
@@ -85,7 +85,7 @@ def sparseRead (dev : Dev) (devSize bs : Nat) (es : List Extent) (size off n : N
   else
     let want := if off + n > size then size - off else n
     match sparseLoop dev devSize bs (off / bs) want es ⟨off, [], []⟩ with
-    | .panic => .panic
+    | .panic st => .panic st.off
     | .fail st => .ioerr st.got.length st.off
     | .done st =>
       let pad := want - st.got.length
